@@ -13,7 +13,8 @@ def _val(i, f):
 
 def _shape_out(w_rows, shape, dtype):
     """array of the stated shape for the per-row weighted sums w_rows"""
-    w = np.asarray(w_rows, dtype=dtype)
+    with np.errstate(all="ignore"):
+        w = (np.asarray(w_rows, dtype=float) % 100).astype(dtype) if dtype in ("int8", "uint8") else np.asarray(w_rows, dtype=float).astype(dtype)
     if shape == "scalar":
         return w.reshape(())            # 0-d
     if shape == "one":
@@ -57,15 +58,19 @@ def array_case(rec, wrapper_kind, dtype):
         received.append(a.copy())
         return [sum((k + 1) * a[r, k] for k in range(a.shape[1])) for r in range(a.shape[0])]
 
+    produced = []
     if wrapper_kind == "sklearn":
         def predict(arr):
-            return _shape_out(weighted(arr), rec["shape"], dtype)
+            out = _shape_out(weighted(arr), rec["shape"], dtype)
+            produced.append(out)
+            return out
         w = SklearnWrapper(predict, feature_names=names)
     else:
         import torch
 
         def link(t):
             out = _shape_out(weighted(t.detach().cpu().numpy()), rec["shape"], "float32" if dtype == "int64" else dtype)
+            produced.append(out)
             return torch.tensor(out)
         w = TorchWrapper(link, feature_names=names)
     x = rows[0] if batch == 0 else rows
@@ -75,6 +80,17 @@ def array_case(rec, wrapper_kind, dtype):
     except Exception as e:
         return [("wrapper.raises", "%s %s shape=%s batch=%d names=%s: %s: %s" % (wrapper_kind, dtype, rec["shape"], batch, names, type(e).__name__, str(e)[:150]))]
     want = rec["expected"]
+    if dtype not in ("float64", "float32", "int64") and len(produced) == 1:
+        # dtypes whose cast changes the numbers (bool, narrow / unsigned integers, half precision): the structure of the
+        # canonical form is the specification's, the values are those of the array the prediction function returned
+        arr = np.asarray(produced[0])
+
+        def revalue(w_, flat):
+            return {k: float(flat[i]) for i, k in enumerate(w_.keys())}
+        if batch == 0:
+            want = revalue(want, arr.reshape(-1))
+        else:
+            want = [revalue(w_, np.asarray(arr[i]).reshape(-1)) for i, w_ in enumerate(want)]
     if batch == 0:
         ok = _canon_equal(got, want)
     else:
